@@ -598,12 +598,12 @@ theorem parseModRM_mem (p : Parsed) (mb : BitVec 8) (sib : Option (BitVec 8)) (d
 def decodedDisp (r : Rule) (p : Parsed) : Int :=
   if p.dispSize == 0 then 0 else if p.dispSize == 1 then sextNat p.disp 8 * (if p.vexKind == 4 then disp8N r p else 1) else sextNat p.disp 32
 
-/-- `[base + disp]` with a 64-bit base register in 64-bit mode: the memory check of the monitor succeeds when the decoded base
+/-- `[base + disp]` with a 64-bit (or, `a32`, 32-bit + 67 prefix) base register in 64-bit mode: the memory check of the monitor succeeds when the decoded base
 register (ModRM.rm, or SIB.base with "no index" and scale 0) and the decoded displacement are the operand's -/
-theorem checkMem_base64 (c : Spec.X86.Ctx) (r : Rule) (p : Parsed) (m : MemOp) (mb : BitVec 8)
-    (hm64 : c.mode64 = true) (hno67 : p.prefixes.contains 0x67#8 = false) (ha16 : p.addr16 = false)
+theorem checkMem_base64 (c : Spec.X86.Ctx) (r : Rule) (p : Parsed) (m : MemOp) (mb : BitVec 8) (a32 : Bool)
+    (hm64 : c.mode64 = true) (hno67 : p.prefixes.contains 0x67#8 = a32) (ha16 : p.addr16 = false)
     (hmodrm : p.modrm = some mb) (hmod : bits mb 6 2 ≠ 3)
-    (hbk : m.baseKind = .gpq) (hik : m.indexKind = .none)
+    (hbk : m.baseKind = (if a32 then .gpd else .gpq)) (hik : m.indexKind = .none)
     (hfields : (p.sib = Option.none ∧ ¬ (bits mb 6 2 = 0 ∧ bits mb 0 3 = 5) ∧ regNum false p.B (bits mb 0 3) = m.baseId) ∨
                (∃ s, p.sib = some s ∧ ¬ (bits mb 6 2 = 0 ∧ bits s 0 3 = 5) ∧ regNum false p.B (bits s 0 3) = m.baseId ∧
                      regNum false p.X (bits s 3 3) = 4 ∧ bits s 6 2 = 0))
@@ -612,16 +612,29 @@ theorem checkMem_base64 (c : Spec.X86.Ctx) (r : Rule) (p : Parsed) (m : MemOp) (
   have hmod' : (bits mb 6 2 == 3) = false := by simpa using hmod
   have hvs : vsibOf m = .none := by simp [vsibOf, hik]
   unfold decodedDisp at hd
-  have hno67' : ¬ (0x67#8 ∈ p.prefixes) := by simpa using hno67
-  rcases hfields with ⟨hs, hn5, hb⟩ | ⟨s, hs, hn5, hb, hx, hsc⟩
-  · have hn5' : (bits mb 6 2 == 0 && bits mb 0 3 == 5) = false := by
-      simp only [Bool.and_eq_false_iff, beq_eq_false_iff_ne]; by_cases h : bits mb 6 2 = 0 <;> simp_all
-    simp [checkMem, hmodrm, hmod', hm64, hno67, hno67', ha16, hvs, hbk, hik, hs, hn5', hb, wantedAddrSize, bind, Except.bind, pure, Except.pure]
-    simpa using hd
-  · have hn5' : (bits mb 6 2 == 0 && bits s 0 3 == 5) = false := by
-      simp only [Bool.and_eq_false_iff, beq_eq_false_iff_ne]; by_cases h : bits mb 6 2 = 0 <;> simp_all
-    simp [checkMem, hmodrm, hmod', hm64, hno67, hno67', ha16, hvs, hbk, hik, hs, hn5', hb, hx, hsc, wantedAddrSize, bind, Except.bind, pure, Except.pure]
-    simpa using hd
+  cases a32
+  · have hno67' : ¬ (0x67#8 ∈ p.prefixes) := by simpa using hno67
+    simp only [Bool.false_eq_true, ↓reduceIte] at hbk
+    rcases hfields with ⟨hs, hn5, hb⟩ | ⟨s, hs, hn5, hb, hx, hsc⟩
+    · have hn5' : (bits mb 6 2 == 0 && bits mb 0 3 == 5) = false := by
+        simp only [Bool.and_eq_false_iff, beq_eq_false_iff_ne]; by_cases h : bits mb 6 2 = 0 <;> simp_all
+      simp [checkMem, hmodrm, hmod', hm64, hno67, hno67', ha16, hvs, hbk, hik, hs, hn5', hb, wantedAddrSize, bind, Except.bind, pure, Except.pure]
+      simpa using hd
+    · have hn5' : (bits mb 6 2 == 0 && bits s 0 3 == 5) = false := by
+        simp only [Bool.and_eq_false_iff, beq_eq_false_iff_ne]; by_cases h : bits mb 6 2 = 0 <;> simp_all
+      simp [checkMem, hmodrm, hmod', hm64, hno67, hno67', ha16, hvs, hbk, hik, hs, hn5', hb, hx, hsc, wantedAddrSize, bind, Except.bind, pure, Except.pure]
+      simpa using hd
+  · have hno67' : 0x67#8 ∈ p.prefixes := by simpa using hno67
+    simp only [↓reduceIte] at hbk
+    rcases hfields with ⟨hs, hn5, hb⟩ | ⟨s, hs, hn5, hb, hx, hsc⟩
+    · have hn5' : (bits mb 6 2 == 0 && bits mb 0 3 == 5) = false := by
+        simp only [Bool.and_eq_false_iff, beq_eq_false_iff_ne]; by_cases h : bits mb 6 2 = 0 <;> simp_all
+      simp [checkMem, hmodrm, hmod', hm64, hno67, hno67', ha16, hvs, hbk, hik, hs, hn5', hb, wantedAddrSize, bind, Except.bind, pure, Except.pure]
+      simpa using hd
+    · have hn5' : (bits mb 6 2 == 0 && bits s 0 3 == 5) = false := by
+        simp only [Bool.and_eq_false_iff, beq_eq_false_iff_ne]; by_cases h : bits mb 6 2 = 0 <;> simp_all
+      simp [checkMem, hmodrm, hmod', hm64, hno67, hno67', ha16, hvs, hbk, hik, hs, hn5', hb, hx, hsc, wantedAddrSize, bind, Except.bind, pure, Except.pure]
+      simpa using hd
 
 /-- at most two legacy prefix bytes (segment override and / or 67) -/
 def PfxList (fw : Bool) (pfx : List (BitVec 8)) : Prop :=
